@@ -24,7 +24,7 @@ def run(ck):
         "creation time taken from the front. Calendar arithmetic and boundary instants are not decided.")
     ck.assumptions += ["the `time` crate's date arithmetic and formatting", "file-system metadata (creation times) is truthful"]
     ck.rule("C16.R1", "rotation tables: step, rounding and file-name granularity agree per kind", floor=4)
-    ck.rule("C16.R2", "one elected rotator; rotate iff now >= next_date; same steps on both write paths", floor=5)
+    ck.rule("C16.R2", "one elected rotator; rotate iff now >= next_date; same steps on both write paths (debug and release builds)", floor=10)
     ck.rule("C16.R3", "log files are opened with append+create and never truncated", floor=1)
     ck.rule("C16.R5", "rolling::Builder methods keep every other option (same-named field carry-over)", floor=4)
     ck.rule("C16.R4", "prune only before creating the next file, oldest first, only the appender's files", floor=4)
@@ -32,6 +32,11 @@ def run(ck):
     r2(ck, F)
     r3(ck, F)
     r4(ck, F)
+    # debug assertions compiled out (what release builds run): the rotation steps must not live inside a debug_assert!
+    ck.tag = "[release]"
+    ck.configs.append("release")
+    r2(ck, Facts("release"))
+    ck.tag = ""
     from rulekit.query import builder_carry_over
     builder_carry_over(ck, F, "C16.R5", ("tracing_appender::rolling::builder::",))
 
